@@ -28,6 +28,9 @@ type ProbeConfig struct {
 	// RenameRoots: the probe's Mutation root type is renamed ("Commands") and declared
 	// through an explicit schema{...} block.
 	RenameRoots bool
+	// FieldDirective: the schema additionally declares an executable directive on FIELD,
+	// which routes every generated field through _fieldMiddleware.
+	FieldDirective bool
 	// Exec overrides the exec: section; Extra is appended at top level of gqlgen.yml.
 	Exec  string
 	Extra string
@@ -40,6 +43,7 @@ var (
 	CfgWorker1      = ProbeConfig{Name: "worker-limit-1", Exec: "exec:\n  filename: graph/generated.go\n  package: graph\n  worker_limit: 1\n"}
 	CfgWorker2      = ProbeConfig{Name: "worker-limit-2", Exec: "exec:\n  filename: graph/generated.go\n  package: graph\n  worker_limit: 2\n"}
 	CfgRenamedRoots = ProbeConfig{Name: "renamed-roots", RenameRoots: true}
+	CfgFieldDir     = ProbeConfig{Name: "field-directive", FieldDirective: true}
 	CfgWorker8      = ProbeConfig{Name: "worker-limit-8", Exec: "exec:\n  filename: graph/generated.go\n  package: graph\n  worker_limit: 8\n"}
 )
 
@@ -83,6 +87,10 @@ func BuildAll(probeName string, cfgs []ProbeConfig) []Built {
 			defer func() { <-sem }()
 			files := probe.ReadProbe(probeName)
 			files["gqlgen.yml"] = pc.yaml()
+			if pc.FieldDirective {
+				files["schema.graphql"] = "directive @fq(tag: String) on FIELD\n" + files["schema.graphql"]
+				files["harness/main.go"] = strings.Replace(files["harness/main.go"], "// FIELD-DIRECTIVE-HOOK", "Fq: func(ctx context.Context, obj any, next graphql.Resolver, tag *string) (any, error) { return next(ctx) },", 1)
+			}
 			if pc.RenameRoots {
 				sdl := files["schema.graphql"]
 				sdl = strings.Replace(sdl, "type Mutation {", "type Commands {", 1)
